@@ -26,6 +26,7 @@ func init() {
 			ruleAggregatorReset(r)
 			ruleSelectLogsWindow(r)
 			ruleMergeIter(r) // windows are filled from a time-ordered sample stream (fillWindow stops at the first sample after the window)
+			ruleMapCopyWriteBack(r, []string{metricPkg, enginePkg}, 2)
 		},
 	})
 }
